@@ -350,6 +350,7 @@ class C04(Prop):
         if any(sol[k].get("spontaneous") for k in legs):
             return [], {"nontrivial": True, "noverdict": True}
         worst = 0.0
+        inaccurate = False
         case = plan["case"]
         base = sol["base"]
         for k in legs[1:]:
@@ -389,6 +390,12 @@ class C04(Prop):
                                      "detail": {"base": base.get("exc_type"), "other": other.get("exc_type"),
                                                 "msg": (base.get("msg") or other.get("msg") or "")[:120]}})
                     continue
+                if base.get("accurate") is False or other.get("accurate") is False:
+                    # one of the two REAL answers is not accurate to the tolerance of the comparison (status other
+                    # than "optimal", or the solver's own Gram matrix not PSD to 1e-6 - same rule as O-PRIMAL):
+                    # the difference measures the solver on a badly scaled instance, not the declaration order
+                    inaccurate = True
+                    continue
                 a, b = float.fromhex(vb), float.fromhex(vo)
                 # 1e-3 where the construction makes the SDP non-strictly feasible: an aliased sample (equality
                 # ||q - x||^2 <= 0), or a second stationary sample of the quadratic class, which its LMI forces onto
@@ -418,7 +425,7 @@ class C04(Prop):
             if v["signature"] not in seen:
                 seen.add(v["signature"])
                 out.append(v)
-        return out, {"nontrivial": True, "noverdict": False, "residuals": {"C04/value": worst}}
+        return out, {"nontrivial": True, "noverdict": inaccurate and not out, "residuals": {"C04/value": worst}}
 
     def accept_oracle(self, oracle):
         return oracle.startswith("C04") or oracle == "O-DELIVERY"
